@@ -268,7 +268,17 @@ def r4(ctx):
     for fid in ("turmoil_io_uring::sim::exec_write", "turmoil_fs::shim::std::fs::File::write_at_internal"):
         for fb in (ctx.w.family(fid) if fid in ctx.w.bodies else []):
             for bb, t in fb.calls("turmoil_fs::Fs::check_space"):
-                shapes[fid] = (expr_shape(fb, t["args"][1]), t["s"])
+                sh = expr_shape(fb, t["args"][1])
+                # `if end > len { check_space(end - len) }` charges saturating_sub(end, len) whenever that is positive
+                if isinstance(sh, tuple) and sh[0] == "Sub":
+                    for sbb, te, fe, o in guards_on(fb, lambda o: o["k"] == "bin" and o["op"] in ("Gt", "Lt")):
+                        ga, gb = expr_shape(fb, o["a"]), expr_shape(fb, o["b"])
+                        if o["op"] == "Lt":
+                            ga, gb = gb, ga
+                        if (ga, gb) == (sh[1], sh[2]) and te and fb.dominated_by_any(bb, edges=te):
+                            sh = ("saturating_sub", sh[1], sh[2])
+                            break
+                shapes[fid] = (sh, t["s"])
     if len(shapes) == 2:
         (sa, site), (sb, _) = shapes["turmoil_io_uring::sim::exec_write"], shapes["turmoil_fs::shim::std::fs::File::write_at_internal"]
         ctx.inst(R, "exec_write~write_at_internal:space-charged", sa == sb, site, f"both charge {shape_str(sa)}" if sa == sb else
